@@ -61,6 +61,24 @@ def _second_model(t):
         t.append(a)
 
 
+def _model_numbers(m1, m2):
+    """Two models with the given numbers (the MODEL serial field is four columns wide: 9999 is the largest; models need not start at 1)."""
+    def f(t):
+        if any(a["model"] != 1 for a in t):
+            return False
+        n = len(t)
+        for a in t:
+            a["model"] = m1
+        for k in range(n):
+            a = dict(t[k])
+            a["model"] = m2
+            a["serial"] = a["serial"] + n
+            a["x"] = "%.3f" % (float(a["x"]) + 0.5)
+            t.append(a)
+    f.__name__ = "models=%d,%d" % (m1, m2)
+    return f
+
+
 def _altloc_pair(t):
     # atom 1 gets alternate locations A/B (two records)
     a = t[1]
@@ -113,11 +131,14 @@ def deviations():
     d.append(_serial_offset(998))
     for v in ("DG", "5MC", "HOH"):
         d.append(_res(3, 3, "resname", v))
+    # appended (earlier indices stay valid for stored replays): model numbers that fill the four-column MODEL serial field / do not start at 1
+    d.append(_model_numbers(999, 1000))
+    d.append(_model_numbers(2, 9999))
     return d
 
 
 DEVS = deviations()
-LAYOUT_CRITICAL = [k for k, f in enumerate(DEVS) if any(s in f.__name__ for s in ("name=", "resseq", ".x=", "serial+", "_second_model", "charge", "icode", "_altloc"))]
+LAYOUT_CRITICAL = [k for k, f in enumerate(DEVS) if any(s in f.__name__ for s in ("name=", "resseq", ".x=", "serial+", "_second_model", "charge", "icode", "_altloc", "models="))]
 
 
 def BOUNDS(tier):
@@ -146,6 +167,9 @@ def splitter_cases(tier):
             for fmt in ("PDB", "mmCIF"):
                 for target in ("keep", "PDB", "mmCIF"):
                     yield dict(devs=devs, start=fmt, splitter=target)
+                    if fmt == "mmCIF" and target == "PDB":
+                        # label ids that differ from the author ids (two-character label_asym_id): PDB output is written from the author ids alone
+                        yield dict(devs=devs, start=fmt, splitter=target, labels=True)
 
 
 def families(tier):
@@ -243,7 +267,7 @@ def run_splitter(case, table):
     ext = ".pdb" if case["start"] == "PDB" else ".cif"
     src = os.path.join(sd, "split_in" + ext)
     with open(src, "w") as f:
-        f.write(enumio.emit_pdb(table) if case["start"] == "PDB" else enumio.emit_cif(table))
+        f.write(enumio.emit_pdb(table) if case["start"] == "PDB" else enumio.emit_cif(table, label_differs=bool(case.get("labels"))))
     od = os.path.join(sd, "split_out")
     shutil.rmtree(od, ignore_errors=True)
     old = sys.argv
@@ -289,6 +313,8 @@ def run_splitter(case, table):
 def run_case(case):
     from rnapolis import parser_v2
 
+    if enumio.apply_deviations([DEVS[k] for k in case["devs"]]) is None:
+        return dict(nontrivial=False, outcome="inapplicable", violations=[])
     if "splitter" in case:
         table = enumio.apply_deviations([DEVS[k] for k in case["devs"]])
         try:
